@@ -199,3 +199,34 @@ def run(ctx):
     hv = prog.find_method("HedValidator", "validate")
     wiring.check_wiring(ctx, "R2.2", [{"key": "ValidationErrors.PARENTHESES_MISMATCH", "code": "PARENTHESES_MISMATCH"}], hv,
                         phases={"basic": prog.find_method("HedValidator", "run_basic_checks")})
+    ctx.rule("R2.3", "the printers (str / short / long / original form) visit every child of a group, unfiltered")
+    print_all_children(ctx, "R2.3")
+
+
+def print_all_children(ctx, rule):
+    """R2.3: printing visits every child: loops/comprehensions over self.children in the printers have no filter."""
+    prog = ctx.prog
+    hg = prog.find_class("HedGroup")
+    printers = [hg.methods.get(n) for n in ("__str__", "get_as_form")]
+    if any(p is None for p in printers):
+        raise AnalysisError("anchor HedGroup.__str__/get_as_form vanished")
+    n = 0
+    for p in printers:
+        ctx.saw(p)
+        for x in walk_no_nested(p.node):
+            gens = []
+            if isinstance(x, (ast.ListComp, ast.GeneratorExp, ast.SetComp)):
+                gens = [g for g in x.generators if "children" in norm(g.iter)]
+                for g in gens:
+                    n += 1
+                    ctx.check(not g.ifs, rule, p.qualname, x, loc(p, x),
+                              "%s skips some children when printing (filter `%s`): printing the tree and re-parsing it no "
+                              "longer gives an equal tree (e.g. empty groups vanish)" % (p.short, norm(g.ifs[0]) if g.ifs else ""),
+                              desc="%s prints every child" % p.short)
+            elif isinstance(x, ast.For) and "children" in norm(x.iter):
+                n += 1
+                skips = [y for y in ast.walk(x) if isinstance(y, ast.Continue)]
+                ctx.check(not skips, rule, p.qualname, x.iter, loc(p, x),
+                          "%s skips some children when printing (continue in the loop over children)" % p.short,
+                          desc="%s prints every child" % p.short)
+    ctx.floor(rule, "child iterations in the printers", n, 3)
